@@ -221,10 +221,13 @@ def mon_c02(ctx, rec):
         out.append(("C02:runoff-exceeds-supply", f"day t={rec.t}: Runoff={ro} > rain+irrigation+ponded = {supply + rec.ss0}"))
     mg = ctx.mgmt(rec)
     if infl < 0:
-        if mg["has_bunds"] or rec.ss0 <= 0:
-            out.append(("C02:negative-infiltration", f"day t={rec.t}: Infl={infl} with bunds={mg['has_bunds']} ponded_before={rec.ss0}"))
-        elif infl < -rec.ss0 - 1e-9:
-            out.append(("C02:negative-infiltration-exceeds-ponding", f"day t={rec.t}: Infl={infl} < -ponded_before={-rec.ss0}"))
+        # ponded water may be released as runoff when the bunds that held it are gone: removed altogether, or replaced by
+        # lower ones (in-season bunds 0.3 m, fallow bunds 0.05 m) - then only the water standing above the new bund height
+        released = rec.ss0 if not mg["has_bunds"] else max(0.0, rec.ss0 - mg["z_bund_mm"])
+        if released <= 0:
+            out.append(("C02:negative-infiltration", f"day t={rec.t}: Infl={infl} with bunds={mg['has_bunds']} (height {mg['z_bund_mm']} mm) ponded_before={rec.ss0}"))
+        elif infl < -released - 1e-9:
+            out.append(("C02:negative-infiltration-exceeds-ponding", f"day t={rec.t}: Infl={infl} < -(ponded water released)={-released}"))
     if P == 0 and irr == 0 and rec.ss0 == 0 and (infl != 0 or ro != 0):
         out.append(("C02:something-from-nothing", f"day t={rec.t}: no rain, irrigation or ponding but Infl={infl} Runoff={ro}"))
     return out
